@@ -389,6 +389,14 @@ def levy_cases():
         for row in seq_rows:
             row['seq'] = c
         rows += seq_rows
+    # IEEE corners of the formula: a second draw that is zero or tiny for the exponent (the step is +-inf, or NaN for 0/0) -- still
+    # "Mantegna's formula applied to the two draws consumed"
+    for k, (beta, g2) in enumerate([(1.5, 0.0), (0.5, -0.0), (0.01, 1e-3), (0.01, -2.5e-5), (0.3, 5e-324), (2.0, 1e-200), (1.0, 0.0)]):
+        calls = [{'beta': beta, 'g1': [1.0, -2.0, 0.0], 'g2': [g2, g2, g2], 'size': 3}]
+        seq_rows = run_levy_seq(calls)
+        for row in seq_rows:
+            row['seq'] = n + k
+        rows += seq_rows
     return rows
 
 
@@ -599,7 +607,26 @@ def replay_real(call):
     return {'fails': False, 'note': 'unknown call'}
 
 
+def prior_task():
+    """The property quantifies over histories: every observation of this harness (and of its replays) is made in a process in which a
+    small optimization task has already run through Opytimizer.start() -- state a task leaves behind in the process (NumPy's error
+    mode, a cached constant, a spare deviate) then meets the primitives."""
+    try:
+        from opytimizer import Opytimizer
+        from opytimizer.core.function import Function
+        from opytimizer.optimizers.pso import PSO
+        from opytimizer.spaces.search import SearchSpace
+        st = np.random.get_state()
+        np.random.seed(7)
+        Opytimizer(space=SearchSpace(n_agents=2, n_variables=1, n_iterations=1, lower_bound=[0], upper_bound=[1]), optimizer=PSO(),
+                   function=Function(pointer=lambda x: float(np.sum(x ** 2)))).start()
+        np.random.set_state(st)
+    except Exception:  # noqa: BLE001   (a task that does not run is C03's subject)
+        pass
+
+
 def main():
+    prior_task()
     p = hlib.payload()
     if p and 'replay' in p:
         hlib.emit(replay(p['replay']))
